@@ -667,6 +667,11 @@ func nativeReplay(spec *Spec, rf *ReplayFile, path string, workDir string) (map[
 	}
 	cmd.Dir = workDir
 	cmd.Env = append(os.Environ(), "ZZVERIF_REPLAY="+path)
+	for _, h := range spec.Harnesses {
+		if h.Name == rf.Harness && h.Sched != "" {
+			cmd.Env = append(cmd.Env, "ZZVERIF_REPEAT=400")
+		}
+	}
 	out, _ := cmd.CombinedOutput()
 	os.Remove(bin)
 	if testTimeout == "20s" && strings.Contains(string(out), "test timed out") {
